@@ -299,4 +299,12 @@ def run(tier):
     for rid, clause, detail in mm:
         print("OBSERVATION extra clause=%s op=%s %s" % (clause, byid.get(rid, {}).get("op"), json.dumps(byid.get(rid, {}).get("in"))[:200]))
     print("extra: %d records validated against Extra.tla, %d mismatching clauses" % (len(recs), len(mm)))
+    # the top-level specification's clauses that belong to no listed property (genesis blocks, halving interval, ...)
+    import chainhist
+    recs2 = chainhist.drive(tier, "extra")
+    mm2 = vlib.validate("Trace_Bitcoinlib", recs2, shards=min(6, vlib.NCPU))
+    byid2 = {x["id"]: x for x in recs2}
+    for rid, clause, detail in mm2:
+        print("OBSERVATION bitcoinlib clause=%s op=%s %s" % (clause, byid2.get(rid, {}).get("op"), json.dumps(byid2.get(rid, {}).get("in"))[:200]))
+    print("extra: %d records of mixed chain histories validated against Bitcoinlib.tla, %d mismatching clauses" % (len(recs2), len(mm2)))
     return 0
